@@ -410,6 +410,36 @@ def zstdCodec {τ : Type} (L : ZLib τ) (compress : Bool) : Codec (ZState τ) wh
     | some r => r
     | none => ⟨s, 0, [], Res.error⟩
 
+/-! ## `tar_open_stream`: is the input compressed, and how (`lib/xfrm/src/compress.c`, `lib/tar/src/iterator.c`) -/
+
+/-- the table `compressors[]` of compress.c, in its order: (id, magic) -/
+def magicTable : List (Nat × Bytes) :=
+  [ (Sqfs.Consts.xfrmCompGzip, [0x1F, 0x8B, 0x08]),
+    (Sqfs.Consts.xfrmCompXz, [0xFD, 0x37, 0x7A, 0x58, 0x5A, 0x00]),          -- "\xFD" "7zXZ" and the string's NUL, count 6
+    (Sqfs.Consts.xfrmCompZstd, [0x28, 0xB5, 0x2F, 0xFD]),
+    (Sqfs.Consts.xfrmCompBzip2, [0x42, 0x5A, 0x68]) ]                         -- "BZh"
+
+/-- `xfrm_compressor_id_from_magic(data, count)`: first entry whose magic is not longer than the data and is a prefix of it; −1 -/
+def compressorIdFromMagic (data : Bytes) : Int :=
+  match magicTable.find? (fun e => decide (e.2.length ≤ data.length) && (data.take e.2.length == e.2)) with
+  | some e => e.1
+  | none => -1
+
+/-- `tar_probe(data, size)`: `ustar` at the magic offset, looked for behind a leading all-zero record if there is one -/
+def tarProbe (data : Bytes) : Bool :=
+  let rs := Sqfs.Consts.tarRecordSize
+  let d := if decide (rs ≤ data.length) && (data.take rs).all (· == 0) then data.drop rs else data
+  let off := Sqfs.Consts.tarMagicOffset
+  decide (off + 5 ≤ d.length) && ((d.drop off).take 5 == [0x75, 0x73, 0x74, 0x61, 0x72])
+
+/-- what `tar_open_stream` does with the first bytes `data` the stream shows: `none` = read it as it is, `some id` = wrap it
+in a decompressor of that kind -/
+def openStreamCodec (data : Bytes) : Option Nat :=
+  if tarProbe data then none
+  else
+    let id := compressorIdFromMagic data
+    if 0 < id then some id.toNat else none
+
 /-! ## a concrete toy codec (also implemented in `harness/h_c15.c`) -/
 namespace Toy
 
